@@ -67,6 +67,13 @@ def shapes(tier):
     add("function-in-loop", lambda g: [("fun", "f", [g.log(), g.exit(), g.lit()]),
                                        ("for", "i", "items", [("logvar", "i"), ("call", "f", g.t()), g.exit(), g.log()]),
                                        g.lit()])
+    # a return travels out through a finally part that calls a function with its own early return
+    add("return-through-finally-call", lambda g: [
+        ("fun", "h", [g.log(), g.exit(), g.lit()]),
+        ("fun", "f", [("for", "i", "items", [("logvar", "i"),
+                                             ("block", [g.exit(), g.log()], [], [("call", "h", g.t()), g.log()]),
+                                             g.log()]), g.lit()]),
+        ("call", "f", g.t()), g.lit()])
     add("forset", lambda g: [("forset", "i", "sitems", [("logvar", "i"), g.exit(), g.log()]), g.lit()])
     for what in ("keys", "values", "entries"):
         add("formap-" + what, lambda g, what=what: [
@@ -218,12 +225,13 @@ def run_loops(ctx, cell):
     n = ctx.int("n", 0, 3)
     c1, c2 = ctx.int("c1", 0, 1), ctx.int("c2", 0, 2)
     rv, ev = vint(ctx.int("rv", 50, 51)), vint(ctx.int("ev", 7, 8))
+    rv2 = vint(60)
     mkeys = [1, 2, 3][:1 + ctx.choice("nm", 3)]
     mpairs = [(vint(k_), vint(ctx.int("mv%d" % k_, 70, 79))) for k_ in reversed(mkeys)]
-    vals = {"sel": sel, "sel2": sel2, "kind": kind, "kind2": kind2, "ev": ev, "ev2": ev, "rv": rv,
+    vals = {"sel": sel, "sel2": sel2, "kind": kind, "kind2": kind2, "ev": ev, "ev2": ev, "rv": rv, "rv2": rv2,
             "items": items, "items2": items2, "sitems": sitems, "n": n, "c1": c1, "c2": c2, "mitems": mpairs}
     env = {"sel": vint(sel), "sel2": vint(sel2), "kind": vint(kind), "kind2": vint(kind2), "ev": ev, "ev2": ev,
-           "rv": rv, "items": vlist(items), "items2": vlist(items2), "sitems": vset(sitems), "n": vint(n),
+           "rv": rv, "rv2": rv2, "items": vlist(items), "items2": vlist(items2), "sitems": vset(sitems), "n": vint(n),
            "c1": vint(c1), "c2": vint(c2), "log": vlist([]), "mitems": vmap(mpairs)}
     text = tdsl.render(prog)
     out = run_ckl(text, env)
